@@ -208,3 +208,9 @@ pub proof fn lemma_sum_all_eq(s: Seq<R>, x: real)
 		assert(mr * x + x == nr * x) by(nonlinear_arith) requires mr == nr - 1real;
 	}
 }
+
+// ---- named spec_fn constants used with fsum (closure literals are not comparable; these are)
+pub open spec fn id_fn() -> spec_fn(R) -> real { |x: R| x@ }
+pub open spec fn sq_fn() -> spec_fn(R) -> real { |x: R| x@ * x@ }
+pub open spec fn pos_fn() -> spec_fn(R) -> real { |x: R| rmax(x@, 0real) }
+pub open spec fn neg_fn() -> spec_fn(R) -> real { |x: R| rmax(-x@, 0real) }
